@@ -98,6 +98,9 @@ def gen_case(rng, nrec, small=True, nested=False, minstr=0):
     names = ["main"] + ["f%d" % i for i in range(1, nfun + 1)]
     syms = [(0x1000 + 0x100 * i, 0x80, "T", n) for i, n in enumerate(names)]
     specs = [([], [])] + gen_specs(rng, nfun)
+    # every case has one function whose payloads contain string bodies at offsets that are not multiples of 8
+    # (a cut inside them leaves args.len % 8 != 0: the realignment path of read_task_args)
+    specs[1] = (["i32", "s", "s"] if rng.random() < 0.5 else ["s", "i64", "s"], ["s"])
     recs = []
     t = 1000
     stack = []
@@ -126,6 +129,7 @@ def gen_case(rng, nrec, small=True, nested=False, minstr=0):
     if nested:
         a0 = entry(0, 0)
         stack.append((0, a0))
+        stack.append((1, entry(1, 1)))          # the string function is called (and returns) in every directory
     while len(recs) < nrec:
         k = rng.random()
         if k < 0.12:
@@ -142,7 +146,7 @@ def gen_case(rng, nrec, small=True, nested=False, minstr=0):
                 fi = rng.randrange(1, nfun + 1)
                 stack.append((fi, entry(fi, len(stack))))
         else:
-            fi = rng.randrange(0, nfun + 1)
+            fi = 1 if not recs else rng.randrange(0, nfun + 1)
             d = rng.choice([0, 1, 2, 1022, 1023])
             if rng.random() < 0.5:
                 entry(fi, d)
